@@ -16,6 +16,8 @@ import (
 	dynv2 "github.com/godaddy/asherah/go/appencryption/plugins/aws-v2/dynamodb/metastore"
 
 	"asherahverif/doubles"
+	"asherahverif/explore"
+	"asherahverif/shim/vsched"
 )
 
 // ---------------------------------------------------------------------------------
@@ -384,8 +386,120 @@ func CheckC13(r *Report) {
 		byName[im.name] = im
 		names = append(names, im.name)
 	}
+	names = append(names, "schedules")
 	r.RunScenarios(names, func(r *Report, name string) {
+		if name == "schedules" {
+			c13Sched(r)
+			return
+		}
 		kr := c13BFS(byName[name], n, r.Deadline)
 		r.AddK(kr, nil)
 	})
+	r.Rule += " || PLUS every interleaving of 2-3 concurrent Store calls for one (id, created) (and a concurrent reader) on the in-memory metastore: exactly one success, the winner's record is never replaced, reads are monotone"
+}
+
+// ---------------------------------------------------------------------------------
+// C13 (schedules): the in-memory metastore is shared by goroutines; concurrent Stores of
+// one (id, created) must still be insert-if-absent: exactly one reports success and its
+// record is the one every later read returns.
+// ---------------------------------------------------------------------------------
+
+func c13SchedBody(nStores int, withReader bool) explore.Body {
+	return func(c *explore.Ctx) {
+		vsched.BeginQuiet()
+		ms := persistence.NewMemoryMetastore()
+		k := c13Key{"_IK_race_svc_prod", 1700000040}
+		vsched.EndQuiet()
+		oks := make([]bool, nStores)
+		errs := make([]error, nStores)
+		var seen []*ae.EnvelopeKeyRecord
+		for i := 0; i < nStores; i++ {
+			i := i
+			vsched.GoNamed(fmt.Sprintf("store%d", i), func() {
+				oks[i], errs[i] = ms.Store(ctx, k.id, k.created, c13Variant(i%4, k))
+			})
+		}
+		if withReader {
+			vsched.GoNamed("reader", func() {
+				for n := 0; n < 2; n++ {
+					r, _ := ms.Load(ctx, k.id, k.created)
+					seen = append(seen, r)
+					r2, _ := ms.LoadLatest(ctx, k.id)
+					seen = append(seen, r2)
+				}
+			})
+		}
+		vsched.Quiesce()
+		if b := vsched.Blocked(); len(b) > 0 {
+			c.Failf("blocked", "threads blocked: %v", b)
+			return
+		}
+		winners := 0
+		win := -1
+		for i, ok := range oks {
+			if errs[i] != nil {
+				c.Failf("store-error", "Store returned %v", errs[i])
+			}
+			if ok {
+				winners++
+				win = i
+			}
+		}
+		if winners != 1 {
+			c.Failf("concurrent-store-winners", "%d concurrent Store calls for one (id, created) reported success %d times, want exactly once", nStores, winners)
+		}
+		final, _ := ms.Load(ctx, k.id, k.created)
+		if winners == 1 {
+			if d := c13Equal(final, c13Variant(win%4, k)); d != "" {
+				c.Failf("winner-overwritten", "the record of the Store that reported success was replaced: %s", d)
+			}
+		}
+		// reads are monotone: once a record was seen, every later read returns the same record
+		var first *ae.EnvelopeKeyRecord
+		for _, r := range seen {
+			if r == nil {
+				if first != nil {
+					c.Failf("read-went-back", "a read returned nothing after an earlier read had returned the record")
+				}
+				continue
+			}
+			if first == nil {
+				first = r
+			}
+			if d := c13Equal(r, first); d != "" {
+				c.Failf("record-changed-between-reads", "two reads of one (id, created) returned different records: %s", d)
+			}
+		}
+		if first != nil {
+			if d := c13Equal(final, first); d != "" {
+				c.Failf("record-changed-after-read", "a record that was already visible to a reader was replaced: %s", d)
+			}
+		}
+		c.Outcome(fmt.Sprintf("winner=%d", win))
+	}
+}
+
+func c13Sched(r *Report) {
+	for _, sc := range []struct {
+		name   string
+		stores int
+		reader bool
+	}{{"memory-2-stores", 2, false}, {"memory-2-stores-reader", 2, true}, {"memory-3-stores", 3, false}} {
+		if sc.stores > 2 && !r.Thorough() {
+			continue
+		}
+		t0 := time.Now()
+		cfg := explore.Config{Name: "C13s/" + sc.name, Preemptions: -1, Deviations: 0, HBCache: true, Deadline: r.Deadline, MaxViolations: 5}
+		res := explore.Explore(cfg, c13SchedBody(sc.stores, sc.reader))
+		seen := map[string]bool{}
+		var keep []explore.Violation
+		for _, v := range res.Violations {
+			if !seen[v.Sig] {
+				seen[v.Sig] = true
+				keep = append(keep, v)
+			}
+		}
+		res.Violations = keep
+		r.AddExplore(res, "all interleavings (unbounded preemptions, happens-before caching)", time.Since(t0).Seconds())
+	}
 }
